@@ -70,6 +70,9 @@ def _key(*parts):
 CLANG_FLAGS = ['-std=c++14', '-fno-vectorize', '-fno-slp-vectorize', '-fno-unroll-loops', '-ffp-contract=off',
                '-fno-discard-value-names', '-fno-access-control', '-fno-math-errno', '-w']   # hooks (-DLIBPHYSICA_VERIF) are observation-only and compiled into the native replay build only
 
+# Statistics.cpp: keep Sample_Uniform / Sample_Gauss as calls (the checks replace them by the symbolic random stream); -O1 would inline them into their callers in the same TU
+PER_FILE_FLAGS = {'Statistics.cpp': ['-fno-inline-functions']}
+
 def _prune_cache(maxfiles=400):
     fs = sorted(glob.glob(os.path.join(CACHE, '*')), key=os.path.getmtime)
     for f in fs[:-maxfiles]:
@@ -82,7 +85,7 @@ def lower(srcs, harness, keep, opt='-O1', extra=(), exceptions=False):
     os.makedirs(CACHE, exist_ok=True)
     gd = gen_dir()
     hsrc = open(harness).read() if harness else ''
-    key = _key('lower', tree_hash(), srcs, hsrc, keep, opt, extra, exceptions, CLANG_FLAGS)
+    key = _key('lower', tree_hash(), srcs, hsrc, keep, opt, extra, exceptions, CLANG_FLAGS, PER_FILE_FLAGS)
     out = os.path.join(CACHE, key + '.ll')
     info = {'clang': 'clang++-14 ' + opt + ' ' + ' '.join(CLANG_FLAGS), 'sources': list(srcs), 'harness': harness and os.path.basename(harness),
             'tree_hash': tree_hash()[:16], 'cached': os.path.exists(out)}
@@ -98,7 +101,7 @@ def lower(srcs, harness, keep, opt='-O1', extra=(), exceptions=False):
         for s in list(srcs) + ([harness] if harness else []):
             path = s if os.path.isabs(s) else os.path.join(REPO, 'src', s)
             o = os.path.join(tmp, os.path.basename(path) + '.ll')
-            fl = list(CLANG_FLAGS) + list(extra)
+            fl = list(CLANG_FLAGS) + list(extra) + PER_FILE_FLAGS.get(os.path.basename(path), [])
             # Utilities.cpp uses try/catch; everything else is lowered without exception tables
             if not (exceptions or os.path.basename(path) == 'Utilities.cpp'):
                 fl.append('-fno-exceptions')
